@@ -38,7 +38,9 @@ RE_CHAR = re.compile(
     r"'(?>\\[\\\"'nrt0]|\\x[0-9a-fA-F]{2}|\\u\{[0-9a-fA-F]{2,6}\}|(?s:.))'"
 )
 RE_LINE_COMMENT = re.compile(r"//(?!/|!).*")
-RE_BLOCK_COMMENT = re.compile(r"/\*(?:[^*/]|\*(?!/)|/(?!\*)|(?R))*\*/")
+# As pest's `"/*" ~ (block_comment | !"*/" ~ ANY)* ~ "*/"`: a nested "/*" that is never
+# closed is ordinary comment text, and no iteration is ever given back.
+RE_BLOCK_COMMENT = re.compile(r"/\*(?>(?R)|(?!\*/)(?s:.))*+\*/")
 
 ESCAPES = frozenset(["n", "r", "t", "u", "x", "\\", '"', "0", "'"])
 
